@@ -389,9 +389,13 @@ class SimpleJSONRPCDispatcher(SimpleXMLRPCDispatcher, object):
 
         # Prepare a JSON-RPC dictionary
         try:
-            return jsonrpclib.dump(
+            result = jsonrpclib.dump(
                 response, rpcid=request["id"], is_response=True, config=config
             )
+            # Check that the result can be written as a JSON string, to
+            # answer a conversion error with the ID of this very request
+            jsonrpclib.jdumps(result, self.encoding)
+            return result
         except Exception as ex:
             # JSON conversion exception
             fault = Fault(
